@@ -366,6 +366,26 @@ instance (P : Partition) (lvl : Nat → Nat → Nat) (round : Nat → Nat → Na
 /-- The contract: some level function and some round numbering make all clauses hold. -/
 def WF (P : Partition) : Prop := ∃ lvl round, WFwith P lvl round
 
+/-- The clauses the *executor* relies on (a subset of `WFRank`): C08's theorems need no more. -/
+def WFexecRank (P : Partition) (lvl : Nat → Nat → Nat) (r : Nat) : Prop :=
+  Cl.pidsNodup P r ∧ Cl.needsOk P lvl r ∧ Cl.recvOk P lvl r ∧ Cl.overallProduced P r
+  ∧ Cl.sentAreOutputs P r ∧ Cl.readsOk P r ∧ Cl.overallNotRead P r
+
+instance (P : Partition) (lvl : Nat → Nat → Nat) (r : Nat) : Decidable (WFexecRank P lvl r) := by
+  unfold WFexecRank; infer_instance
+
+def WFexecWith (P : Partition) (lvl : Nat → Nat → Nat) : Prop :=
+  ∀ r, r < P.length → WFexecRank P lvl r
+
+instance (P : Partition) (lvl : Nat → Nat → Nat) : Decidable (WFexecWith P lvl) := by
+  unfold WFexecWith; exact Nat.decidableBallLT _ _
+
+/-- What the executor needs of a partition: unique part ids; an acyclic part order in which
+    every receive has a sender; overall outputs are produced and never released; sent names are
+    outputs of the sending part; every name read is a user input, received by the same or an
+    earlier part, or an output of an earlier part. -/
+def WFexec (P : Partition) : Prop := ∃ lvl, WFexecWith P lvl
+
 /-! ## `checkWF`: certificate-producing checker -/
 
 /-- all (rank, pid) pairs -/
@@ -406,6 +426,12 @@ def computeRound (P : Partition) : Nat → Nat → Nat → Nat :=
   fun a b t => batchIndex B (a, b, t)
 
 def checkWF (P : Partition) : Bool := decide (WFwith P (computeLvl P) (computeRound P))
+
+def checkWFexec (P : Partition) : Bool := decide (WFexecWith P (computeLvl P))
+
+def execClauses : List String :=
+  ["pids-nodup", "needs-ok", "recv-ok", "overall-produced", "sent-are-outputs", "reads-ok",
+   "overall-not-read"]
 
 /-- failing clauses, as (rank, clause name) -/
 def failingClauses (P : Partition) : List (Nat × String) :=
